@@ -44,15 +44,16 @@ def violation_record(h, i, clause, extra):
 
 
 def plan_seeds(n, thorough):
+    """seed 0 runs everything; thorough: every other seed too; quick: the other five seeds share the histories, so that
+    EVERY history runs in a second process with a non-zero hash seed"""
     plan = {0: list(range(n))}
     others = [s for s in SEEDS if s != 0]
     if thorough:
         for s in others:
             plan[s] = list(range(n))
     else:
-        per = max(1, n // 4)
         for k, s in enumerate(others):
-            plan[s] = [(k * per // 2 + j) % n for j in range(per)]
+            plan[s] = [j for j in range(n) if j % len(others) == k]
     return plan
 
 
@@ -69,12 +70,12 @@ def poke_histories(h, i, share):
 
 def run(ctx):
     rng = ctx.rng
-    n = ctx.n(290, 2400)
-    histories = CORPUS + [G.history_c10(rng) for _ in range(n)]
+    n = ctx.n(250, 1800)
+    histories = CORPUS + [G.history_c10(rng, 16 if ctx.thorough else 9) for _ in range(n)]
     n = len(histories)
     want = ("read", "build", "edit", "write")
     r = C.check_batch(histories, ctx.repo, plan_seeds(n, ctx.thorough), "C10", want)
-    res = {"evaluations": 0, "nontrivial": set(), "violations": [], "disagreements": [], "streams": 3,
+    res = {"evaluations": 0, "nontrivial": set(), "violations": [], "disagreements": [], "streams": 0,
            "distribution": {}, "notes": []}
     dist = res["distribution"]
     reads, reuse, edits, rerr, nops = {}, 0, 0, {}, 0
@@ -115,6 +116,10 @@ def run(ctx):
                 pass
             res["violations"].append(violation_record(h, i, clause, extra))
     C.detail_summary(histories, r["details"], res)
+    # correspondence streams actually run: (1) model snapshots / aliasing vs real heap, (2) pristine reads,
+    # (3) the same histories in processes with other hash seeds (each evaluated by the oracle on its own)
+    res["streams"] = 1 + (1 if r["pristine"] else 0) + (1 if len(r["by_seed"]) > 1 else 0)
+    dist["oracle_evaluated_in_processes_with_hashseed"] = sorted(r["by_seed"])
     for (hi, d) in r["disagreements"][:40]:
         res["disagreements"].append({"history": histories[hi], "op_index": d["i"], "what": d["what"],
                                      "model": d.get("model"), "impl": d.get("impl")})
@@ -153,17 +158,21 @@ def run(ctx):
                    ">= 2 sets and an edit; distinct histories counted.")
     res["samples"] = [C.describe_history(h) for h in histories[len(CORPUS):len(CORPUS) + 5]]
     res["clauses"] = {
-        "theorem": ["caption sets created by different reads / builds occupy disjoint, closed regions of the heap, "
+        "theorem": ["THE MODEL MEETS THE ORACLE: ok_c10 evaluated on the model's own observations of any history reports "
+                    "nothing (C10_model_meets_oracle)",
+                    "caption sets created by different reads / builds occupy disjoint, closed regions of the heap, "
                     "whatever the history (invariant over arbitrary histories of reads, builds, writes, edits)",
                     "an edit of one set changes no other set's snapshot; reads, builds and writes change no existing set",
-                    "the snapshot a read returns is a function of (reader kind, document), all six reader models - not "
-                    "of the store, the history or the reader object's state",
-                    "before the repairs: shared default dicts and SCC reader reuse refute the statements (witnesses)"],
+                    "before the repairs: shared default dicts and SCC reader reuse refute the statements (witnesses)",
+                    "model-only lemmas (definitional, not about parsing): the model allocates exactly the result tree it "
+                    "is given, whatever the store and reader state"],
         "correspondence_only": ["the model abstracts each reader to WHAT IT ALLOCATES for a given result (which dicts "
                                 "come from default arguments, what the reader object keeps); the result itself "
                                 "(parsing) is taken from a pristine read of the real reader",
-                                "equality with the pristine read and independence of the hash seed are observed on "
-                                "the real readers, in separate processes"]}
+                                "that reading is a deterministic function of document and options, independent of "
+                                "what was read before, of reader reuse and of the hash seed, is decided by EXECUTION only "
+                                "(pristine-read comparison in forked processes; quick: every history in one more process "
+                                "with a non-zero hash seed, thorough: all six seeds) on the generated documents"]}
     res["trusted_extra"] = ["harness/iso_worker.py, iso_snap.py, iso_core.py: heap observers (snapshot, id()-graph walk, "
                             "forked pristine reads) and the comparison with the model's predictions"]
     return res
